@@ -426,6 +426,30 @@ def _as_column(col, vals):
     return np.array(vals, dtype=col.dtype if len(vals) else col.dtype)
 
 
+def check_field_types(order):
+    """In a process of its own: the same table type extended with a column of the same name declared with two different types, one after
+    the other (Records.tla: a table's columns are those of ITS OWN type; types made earlier play no part)."""
+    import bionumpy as bnp
+    from bionumpy.datatypes import Interval
+    VALS = {"int": (int, np.array([7, 8]), [7, 8]), "str": (str, ["x", "yz"], ["x", "yz"]), "float": (float, np.array([0.5, 1.5]), [0.5, 1.5])}
+    bad, n = [], 0
+    for nm in order:
+        typ, vals, want = VALS[nm]
+
+        def ext():
+            t = Interval(["a", "b"], [1, 2], [3, 4])
+            u = t.add_fields({"extra": vals}, field_type_map={"extra": typ})
+            col = u.extra
+            return [x if isinstance(x, str) else (float(x) if nm == "float" else int(x)) for x in col.tolist()], [int(x) for x in u.start.tolist()]
+        o = outcome(ext)
+        n += 1
+        if o != ("ok", (want, [1, 2])):
+            bad.append({"what": "a column added with a declared type does not hold the values given for it when the same table type was extended before with the same name and another type",
+                        "tags": {"ops": "addfield-types", "type": "Interval", "which": "result", "order": "-".join(order)}, "vector": {"order": list(order)},
+                        "expected": want, "observed": o})
+    return {"n": n, "nt": ["types|" + "-".join(order)], "bad": bad}
+
+
 def run(ctx):
     quick = ctx.tier == "quick"
     consts = {"NRows": 3, "Cols": ["key", "a", "b"], "SortCol": "key", "RepCol": "a", "MaxPool": 3, "MaxDepth": 4 if quick else 5, "Ops": ALL_OPS}
@@ -434,6 +458,8 @@ def run(ctx):
     vectors = res.vectors
     ctx.sample(vectors[60])
     ctx.absorb(core.pmap(check_vector, vectors, chunk=25))
+    import itertools as _it
+    ctx.absorb(core.pmap_isolated(check_field_types, [list(p) for p in _it.permutations(["int", "str", "float"], 2)]))
     ctx.exhaustive = True
     return ctx.finish(RULE, assumptions=[
         "replaced columns are given in the representation of the column they replace",
@@ -445,7 +471,10 @@ def run(ctx):
 
 def replay(d):
     print("replay of C19 case:", d.get("what"), d.get("tags"))
-    r = check_vector(dict(d["vector"], _all=True))
+    if d["tags"].get("ops") == "addfield-types":
+        r = check_field_types(d["vector"]["order"])      # (in this process: run the replay in a fresh interpreter, as ./check does)
+    else:
+        r = check_vector(dict(d["vector"], _all=True))
     same = [b for b in r["bad"] if b["tags"]["type"] == d["tags"]["type"]]
     for b in same[:3]:
         print("  disagrees:", b["what"], "expected", str(b["expected"])[:250], "observed", str(b["observed"])[:250])
